@@ -707,7 +707,13 @@ def _parse_colang_files_recursively(
 
         # If there are any new imports, we load them
         if raw_config.get("import_paths"):
-            _load_imported_paths(raw_config, colang_files)
+            try:
+                _load_imported_paths(raw_config, colang_files)
+            except ValueError as e:
+                # The imports that are still not loaded were added by the file parsed above.
+                raise ColangParsingError(
+                    f"Error while loading the imports of Colang file: {current_path}\n{e}"
+                ) from e
 
     if colang_version == "2.x" and _has_input_output_config_rails(raw_config):
         # raise deprecation warning
@@ -1043,11 +1049,21 @@ class RailsConfig(BaseModel):
         if colang_content:
             colang_files.append(("main.co", "main.co"))
 
-            _parsed_config = parse_colang_file(
-                "main.co",
-                content=colang_content,
-                version=colang_version,
-            )
+            try:
+                _parsed_config = parse_colang_file(
+                    "main.co",
+                    content=colang_content,
+                    version=colang_version,
+                )
+            except ValueError as e:
+                raise ColangParsingError(
+                    f"Unsupported colang version {colang_version} for file: main.co"
+                ) from e
+            except Exception as e:
+                raise ColangParsingError(
+                    "Error while parsing Colang file: main.co\n"
+                    + format_colang_parsing_error_message(e, colang_content)
+                ) from e
 
             # We join only the "import_paths" field in the config for now
             _join_config(
@@ -1059,7 +1075,16 @@ class RailsConfig(BaseModel):
 
         # Load any new colang files potentially coming from imports
         if raw_config.get("import_paths"):
-            _load_imported_paths(raw_config, colang_files)
+            try:
+                _load_imported_paths(raw_config, colang_files)
+            except ValueError as e:
+                # If an import of the Colang content is among the unresolved ones, we report it as such.
+                colang_imports = parsed_colang_files[0].get("import_paths", []) if parsed_colang_files else []
+                if any(path not in raw_config.get("imported_paths", {}) for path in colang_imports):
+                    raise ColangParsingError(
+                        f"Error while loading the imports of Colang file: main.co\n{e}"
+                    ) from e
+                raise
 
         # Next, we parse any additional files recursively
         _parse_colang_files_recursively(raw_config, colang_files, parsed_colang_files)
